@@ -18,6 +18,9 @@ CHECKS = {
  "C06": ("strategy-differential monitor: each generated (declaration, input, options) parsed with data_first_search on and off (runtime and class Options routes), fail-fast and with collect_errors",
          "Both strategies must accept with equal key and attribute views, or fail with the same kind ((kind,item) multisets under collect_errors), over declarations spanning the Field parameter space and inputs with aliases, case variants, duplicate spellings, unknown keys, absent fields and invalid values.",
          "Relation between two runs of the library (no reference model). Four divergences repaired in /repo; three mechanism-keyed known findings remain (recognised by the parser's own field facts + outcome shape).", "§4 C06"),
+ "C07": ("history invariant monitor: generated mutation histories on data-class instances with invariants I1-I7 evaluated from the driver at every quiescent point over full snapshots of the mapping, attribute and __dict__ views",
+         "After every setattr/delattr/__setitem__/__delitem__/update/pop/popitem/setdefault/clear/|=/copy step: present fields conform (no unparsed data, no sentinel), required present, immutable unchanged (Field(immutable) and Final), views agree, dependent properties recomputed, a failed single-key operation changed nothing, copy and original independent.",
+         "Invariants are the harness's (check_invariants in vmon/props/c07.py); icontract invariants are not used because they do not fire for dict methods Schema inherits. Six defects found and repaired in /repo.", "§4 C07"),
  "C09": ("combinator semantics monitor: argument-relative oracle (each argument evaluated alone on the original input, per union stage), all permutations of ^, structural construction algebra",
          "For generated combinator nodes over disagreeing argument types: | accepts <=> some argument accepts in one of the three stages and returns an accepting argument's output (exact-type inputs returned unchanged); ^ accepts <=> exactly one argument accepts, identically for every argument order; ~ accepts <=> argument rejects, returning the input object; & equals the left fold. ~~T, duplicate/Any absorption, same-kind flattening and operator order with data classes are checked on the built types.",
          "Argument verdicts come from the library itself on fresh contexts (relation between runs). One known finding (^ exact-type shortcut). One-shot inputs skipped.", "§4 C09"),
